@@ -367,6 +367,40 @@ func rtMetrics() *sched.Instance {
 	return inst
 }
 
+// rtMetricsAcrossBoundary: two Record calls overlap a step of the clock across a bucket boundary of the rolling
+// counters (whichever instant a call read before it waited for a counter's lock, both records are younger than the
+// window: none may be lost).
+func rtMetricsAcrossBoundary() *sched.Instance {
+	m, err := memmetrics.NewRTMetrics()
+	if err != nil {
+		panic(err)
+	}
+	inst := &sched.Instance{Names: []string{"rec1", "rec2", "clock"}}
+	inst.Bodies = []func(){
+		func() { m.Record(502, time.Millisecond) },
+		func() { m.Record(502, time.Millisecond) },
+		func() {
+			vrt.Yield()
+			clock.VerifAdvance(time.Second)
+			vrt.Yield()
+		},
+	}
+	inst.Check = func(*vrt.Exec) []vrt.Failure {
+		if m.TotalCount() != 2 || m.NetworkErrorCount() != 2 {
+			return []vrt.Failure{fail("lost-update:rtmetrics-across-a-bucket-boundary", "2 Record calls (network errors) overlapping a 1s clock step: TotalCount=%d NetworkErrorCount=%d", m.TotalCount(), m.NetworkErrorCount())}
+		}
+		var sum int64
+		for _, n := range m.StatusCodesCounts() {
+			sum += n
+		}
+		if sum != 2 {
+			return []vrt.Failure{fail("lost-update:rtmetrics-across-a-bucket-boundary", "status code counts sum to %d, want 2", sum)}
+		}
+		return nil
+	}
+	return inst
+}
+
 func rtMetricsExport() *sched.Instance {
 	m, _ := memmetrics.NewRTMetrics()
 	m.Record(200, time.Millisecond)
@@ -644,6 +678,7 @@ func Scenarios(tier string) []*sched.Scenario {
 		mk("breaker-recovering", b, up, breakerRecovering),
 		mk("rtmetrics", b, up, rtMetrics),
 		mk("rtmetrics-export", b, up, rtMetricsExport),
+		mk("rtmetrics-across-a-bucket-boundary", b, up, rtMetricsAcrossBoundary),
 		mk("tokenlimiter", b, up, tokenLimiter),
 		mk("tokenlimiter-first-contact", b, up, tokenLimiterFirstContact),
 		mk("ttlmap", b, up, ttlMap),
